@@ -1172,6 +1172,12 @@ def same(a, b):
     if isinstance(a, T.SymAny) and isinstance(b, T.SymAny):
         # opaque values: two wrappers of one term are the same value (wrappers are created per read)
         return mk_bool(a.t == b.t)
+    if isinstance(a, T.SymAny) or isinstance(b, T.SymAny):
+        # an opaque value compared with a concrete Python object (`value is _TOMBSTONE`, a module-level sentinel):
+        # the opaque value MAY be that very object - Any.unwrap maps each unmodelled object to one constant, so the
+        # answer is a symbolic equality and both branches are explored (answering False here would silently drop
+        # the sentinel branch of the code under verification)
+        return mk_bool(T.Any.unwrap(a) == T.Any.unwrap(b))
     return a is b
 
 
